@@ -85,3 +85,102 @@ def prune_policy(graph):
             if not remaining:
                 ids.append(e["id"])
     return sorted(ids)
+
+
+# ---- C07 -------------------------------------------------------------------------------------
+def find_cycle(edges):
+    """edges: list of (a, b) meaning a depends on b; returns a cycle as a list of ids or None"""
+    succ = {}
+    for a, b in edges:
+        succ.setdefault(a, []).append(b)
+    color, stack = {}, []
+    def dfs(u):
+        color[u] = 1; stack.append(u)
+        for v in succ.get(u, []):
+            if color.get(v) == 1:
+                return stack[stack.index(v):] + [v]
+            if color.get(v) is None:
+                c = dfs(v)
+                if c:
+                    return c
+        color[u] = 2; stack.pop()
+        return None
+    for u in list(succ):
+        if color.get(u) is None:
+            c = dfs(u)
+            if c:
+                return c
+    return None
+
+
+def inv07(graph):
+    bad = []
+    by = {t["id"]: t for t in graph["tasks"]}
+    edges = [tuple(e) for e in graph["deps"]]
+    for a, b in edges:
+        if a == b:
+            bad.append(("self-edge", a, b))
+        if a not in by or b not in by:
+            bad.append(("edge-to-missing-item", a, b))
+        elif by[a]["is_epic"] != by[b]["is_epic"]:
+            bad.append(("mixed-kind-edge", a, b))
+        if a in graph.get("tombs", []) or b in graph.get("tombs", []):
+            bad.append(("edge-to-pruned", a, b))
+    c = find_cycle(edges)
+    if c:
+        bad.append(("cycle", c))
+    for t in graph["tasks"]:
+        for d in t["deps"]:
+            if d in by and t["id"] not in by[d]["rdeps"]:
+                bad.append(("mirror", t["id"], d))
+        for r in t["rdeps"]:
+            if r in by and t["id"] not in by[r]["deps"]:
+                bad.append(("mirror", r, t["id"]))
+    return bad
+
+
+# ---- C08 -------------------------------------------------------------------------------------
+CLOSED = {"done", "canceled"}
+
+
+def ready_spec(graph, t):
+    by = {x["id"]: x for x in graph["tasks"]}
+    if t["st"] != "todo" or t["claimed_by"] != "":
+        return False
+    for a, b in graph["deps"]:
+        if a == t["id"] and b in by and by[b]["st"] not in CLOSED:
+            return False
+    if t["epic_id"] != "":
+        for a, e in graph["deps"]:
+            if a == t["epic_id"] and e in by and by[e]["is_epic"]:
+                if any(c["epic_id"] == e and c["st"] not in CLOSED for c in graph["tasks"]):
+                    return False
+    return True
+
+
+def blocked_spec(graph, t):
+    return t["st"] == "blocked" or (t["st"] == "todo" and t["claimed_by"] == "" and not ready_spec(graph, t))
+
+
+def ready_order(graph, epic=""):
+    r = [t for t in graph["tasks"] if not t["is_epic"] and ready_spec(graph, t) and (epic == "" or t["epic_id"] == epic)]
+    r.sort(key=lambda t: (int(t["created_at"]), t["id"].encode()))
+    return [t["id"] for t in r]
+
+
+# ---- C15 -------------------------------------------------------------------------------------
+def waits_edges(graph):
+    """effective waits-for among live items: own deps + deps inherited from the epic's epic-deps"""
+    by = {x["id"]: x for x in graph["tasks"]}
+    out = []
+    for t in graph["tasks"]:
+        for a, b in graph["deps"]:
+            if a == t["id"] and b in by:
+                out.append((t["id"], b, "own"))
+        if t["epic_id"] != "":
+            for a, e in graph["deps"]:
+                if a == t["epic_id"] and e in by and by[e]["is_epic"]:
+                    for c in graph["tasks"]:
+                        if c["epic_id"] == e:
+                            out.append((t["id"], c["id"], "via-epic"))
+    return out
